@@ -213,7 +213,7 @@ Definition init_step (all : list (string * pvalue)) (k : string) (p : pvalue) (s
         | Some b => Ok (mkMState (s_center s) (s_ar s) (s_terminal s) (s_hard s) (s_fixed s) b (s_area s))
         | None => Reject R_flip_bool
         end
-      else (* KW_TERMINAL: the only other raw key *)
+      else if String.eqb k KW_TERMINAL then
         do _ <- assert (negb (has_key KW_AREA all)) R_terminal_area;
         do _ <- assert (negb (has_key KW_ASPECT_RATIO all)) R_terminal_ar;
         do _ <- assert (negb (has_key KW_FLIP all)) R_terminal_flip;
@@ -221,6 +221,7 @@ Definition init_step (all : list (string * pvalue)) (k : string) (p : pvalue) (s
         | Some b => Ok (mkMState (s_center s) (s_ar s) b true (s_fixed s) (s_flip s) (s_area s))
         | None => Reject R_terminal_bool
         end
+      else Reject R_module_attr   (* assert key in [...]: unknown module attribute *)
   end.
 
 Fixpoint init_loop (all ps : list (string * pvalue)) (s : mstate) : result mstate :=
